@@ -162,7 +162,11 @@ func (g *vfGen) genC13() {
 		// one damaged line
 		d := append([]string{}, lines...)
 		j := g.rng.Intn(len(d))
-		switch g.rng.Intn(4) {
+		switch g.rng.Intn(6) {
+		case 4:
+			d[j] = []string{"{", "[", "\"", " {", "[ "}[g.rng.Intn(5)]
+		case 5:
+			d[j] = []string{"tru", "-", "1e", "nul"}[g.rng.Intn(4)]
 		case 0:
 			d[j] = `{"a":`
 		case 1:
@@ -177,6 +181,12 @@ func (g *vfGen) genC13() {
 		g.emit(vfOp("lines", "nd-bad", []byte(ds), len(ds)))
 		g.emit(vfOp("lines", "nd-bad", []byte(ds), len(ds)+5))
 	}
+	// records longer than 64 KiB (limit 0): in front, and followed by a damaged line
+	big := `{"k":"` + strings.Repeat("x", 70000) + `"}`
+	g.emit(vfOp("lines", "nd-ok", []byte(big+"\n{\"a\":1}\n[1,2]\n"), 0))
+	g.emit(vfOp("lines", "nd-ok", []byte("{\"a\":1}\n"+big+"\n[1,2]\n"), 0))
+	g.emit(vfOp("lines", "nd-bad", []byte("{\"a\":1}\n[1]\n"+big+"\n{\"broken\":\n"), 0))
+	g.emit(vfOp("lines", "nd-bad", []byte("{\"id\":1}\n{\"id\":2}\n{\n{\"id\":4}\n"), 0))
 	for _, w := range []string{"{\"a\":\n{\"b\":\n", "1\n2\n", "{}\n", "{}\n{}", "{}\n{}\n", "[\n]\n", "true\ntrue\n{\"a\":1}\n", "  \n{}\n"} {
 		for _, l := range []int{0, len(w), len(w) + 1} {
 			g.emit(vfOp("lines", "any", []byte(w), l))
